@@ -179,6 +179,11 @@ def assertion(a):
             authn += ' SessionNotOnOrAfter="%s"' % n['session_nooa']
         authn += ('><saml:AuthnContext><saml:AuthnContextClassRef>%s</saml:AuthnContextClassRef></saml:AuthnContext>'
                   '</saml:AuthnStatement>' % PASSWORD)
+    if a.get('authn2') is not None:
+        n = a['authn2']
+        authn += ('<saml:AuthnStatement AuthnInstant="%s" SessionIndex="sidx-2" SessionNotOnOrAfter="%s"><saml:AuthnContext>'
+                  '<saml:AuthnContextClassRef>%s</saml:AuthnContextClassRef></saml:AuthnContext></saml:AuthnStatement>'
+                  % (n['instant'], n['session_nooa'], PASSWORD))
     attrs = ''
     if a.get('attrs'):
         attrs = '<saml:AttributeStatement>%s</saml:AttributeStatement>' % attr_xml(a['attrs'])
